@@ -610,6 +610,7 @@ def exc_state_programs():
         "nested-finally": ["try:", "    try:", "        raise TypeError('inner')", "    finally:", "        print('inner finally')", "except TypeError:", "    print('inner handled')"],
         "with-swallow": ["with Swallow():", "    raise TypeError('inner')"],
     }
+    swallow_vals = ["1", "'yes'", "[0]", "2.5", "(0,)", "0", "''", "[]", "None", "0.0", "True", "False"]
     positions = {
         "in-handler": (["raise"], []),
         "in-nested-handler": (["try:", "    raise AttributeError('second')", "except AttributeError:", "    print('second handled')", "    raise"], []),
@@ -622,6 +623,11 @@ def exc_state_programs():
            "def gen():\n    for i in range(2):\n        try:\n            raise NameError(i)\n        except NameError:\n            yield i\n"
            "def reraise():\n    raise\n")
     out = []
+    for sv in swallow_vals:
+        src = ("class R:\n    def __init__(self, r): self.r = r\n    def __enter__(self): return self\n    def __exit__(self, a, b, c):\n        print('exit', a is None)\n        return self.r\n"
+               "def run():\n    with R(%s):\n        raise ValueError('v')\n    print('suppressed')\n    for i in range(2):\n        with R(%s):\n            if i == 0: continue\n            return 'ret'\n"
+               "try:\n    print(run())\nexcept ValueError:\n    print('propagated')\nwith R(%s):\n    print('no exception')\nprint('after')\n" % (sv, sv, sv))
+        out.append((src, dict(outer="ValueError", activity="exit-result " + sv, position="with")))
     for o in outers:
         for an, act in acts.items():
             for pn, (inh, after) in positions.items():
@@ -674,4 +680,67 @@ def captured_param_programs():
                     body.append("    print('outer', %s)" % ", ".join(n if n != "kw" else "sorted(kw.items())" for n in sig))
                     body.append("try:\n    f(%s)\nexcept NameError as e:\n    print('NameError')\nexcept UnboundLocalError as e:\n    print('UnboundLocalError')" % ", ".join(call_args))
                     out.append(("\n".join(body) + "\n", dict(signature=", ".join(text), captured=list(caps), form=form)))
+    return out
+
+# ---------------------------------------------------------------- handler matching over the builtin exception hierarchy
+EXC_NAMES = ['BaseException','Exception','ArithmeticError','AssertionError','AttributeError','BufferError','EOFError','FloatingPointError','GeneratorExit','ImportError','IndexError','KeyError','KeyboardInterrupt','LookupError','MemoryError','NameError','NotImplementedError','OSError','OverflowError','ReferenceError','RuntimeError','StopIteration','SyntaxError','IndentationError','TabError','SystemError','SystemExit','TypeError','UnboundLocalError','UnicodeError','ValueError','ZeroDivisionError','IOError','EnvironmentError','FileNotFoundError','PermissionError','FileExistsError','IsADirectoryError','NotADirectoryError','TimeoutError','InterruptedError','BlockingIOError','ChildProcessError','ConnectionError','BrokenPipeError','ConnectionAbortedError','ConnectionRefusedError','ConnectionResetError','ProcessLookupError','Warning','UserWarning','DeprecationWarning','RuntimeWarning','SyntaxWarning','FutureWarning','ImportWarning','UnicodeWarning','BytesWarning','ResourceWarning','PendingDeprecationWarning']
+def exc_matrix_programs():
+    """for every ordered pair (raised class, handler class) of the builtin exception classes: is the exception
+    caught by `except H`, by `except (X, H)`, and which of several handlers in sequence takes it (the first
+    that matches by inheritance, no other); also instances vs classes as the raise operand"""
+    pre = "names = %r\nclasses = [eval(n) for n in names]\n" % EXC_NAMES
+    p1 = pre + ("for r in classes:\n    row = ''\n    for h in classes:\n        try:\n            try:\n                raise r('x')\n            except h:\n                row += '1'\n"
+                "        except BaseException:\n            row += '0'\n    print(row)\n")
+    p2 = pre + ("for r in classes:\n    row = ''\n    for h in classes:\n        try:\n            try:\n                raise r\n            except (TabError, h):\n                row += '1'\n"
+                "        except BaseException:\n            row += '0'\n    print(row)\n")
+    # first matching handler among three, chosen from the hierarchy in every order of (specific, general, unrelated)
+    p3 = pre + ("def which(r, hs):\n    try:\n        try:\n            raise r('y')\n        except hs[0]:\n            return 0\n        except hs[1]:\n            return 1\n        except hs[2]:\n            return 2\n"
+                "    except BaseException:\n        return 9\n"
+                "trip = [(KeyError, LookupError, Exception), (LookupError, KeyError, Exception), (Exception, LookupError, KeyError), (ValueError, KeyError, BaseException), (ZeroDivisionError, ArithmeticError, OverflowError),\n"
+                "        (FileNotFoundError, OSError, IOError), (IndentationError, SyntaxError, TabError), (UnboundLocalError, NameError, Exception), (NotImplementedError, RuntimeError, StopIteration), (BrokenPipeError, ConnectionError, OSError)]\n"
+                "for hs in trip:\n    print(''.join(str(which(r, hs)) for r in classes))\n")
+    p4 = pre + ("for r in classes:\n    print(''.join('1' if isinstance(r('z'), h) else '0' for h in classes))\n")
+    return [(p1, dict(form="except H")), (p2, dict(form="except (X, H), class operand")), (p3, dict(form="first of three handlers")), (p4, dict(form="isinstance"))]
+
+# ---------------------------------------------------------------- laziness: how much of a producer each consumer pulls
+def laziness_programs():
+    """a logging producer (generator, iterator class, sequence-protocol object) under consumers that must stop
+    early or must not pull at all until asked; the pull log is printed with the result"""
+    prods = {
+      "generator": "def P(n, tag='p'):\n    for i in range(n):\n        print(tag, 'yield', i)\n        yield i\n    print(tag, 'finished')\n",
+      "iterclass": "class It:\n    def __init__(self, n, tag): self.n = n; self.i = 0; self.tag = tag\n    def __iter__(self): return self\n    def __next__(self):\n        if self.i >= self.n:\n            print(self.tag, 'finished')\n            raise StopIteration\n        self.i += 1\n        print(self.tag, 'yield', self.i - 1)\n        return self.i - 1\ndef P(n, tag='p'): return It(n, tag)\n",
+      "getitem": "class Sq:\n    def __init__(self, n, tag): self.n = n; self.tag = tag\n    def __getitem__(self, i):\n        if i >= self.n:\n            print(self.tag, 'finished')\n            raise IndexError\n        print(self.tag, 'yield', i)\n        return i\ndef P(n, tag='p'): return Sq(n, tag)\n",
+    }
+    cons = [
+      "print(any(v > 1 for v in P(5)))", "print(all(v < 2 for v in P(5)))", "print(any(P(4)))", "print(all(P(4)))",
+      "print(2 in P(5))", "print(7 in P(3))", "print(1 not in P(4))",
+      "print(list(zip(P(2, 'a'), P(5, 'b'))))", "print(list(zip(P(5, 'a'), P(2, 'b'))))", "print(list(zip(P(0, 'a'), P(3, 'b'))))", "print(list(zip(P(2, 'a'), P(2, 'b'), P(3, 'c'))))",
+      "i = iter(P(4))\nprint(next(i))\nprint(next(i))", "i = iter(P(1))\nprint(next(i))\nprint(next(i, 'dflt'))\nprint(next(i, 'again'))",
+      "for v in P(5):\n    if v == 2:\n        break\nprint('after', v)", "for v in P(2):\n    pass\nelse:\n    print('else')",
+      "try:\n    a, b = P(2)\n    print(a, b)\nexcept ValueError:\n    print('ValueError')", "try:\n    a, b = P(5)\n    print(a, b)\nexcept ValueError:\n    print('ValueError')",
+      "try:\n    a, b, c = P(2)\nexcept ValueError:\n    print('ValueError')", "a, *b = P(3)\nprint(a, b)", "*a, b = P(3)\nprint(a, b)",
+      "m = map(lambda v: v * 2, P(3))\nprint('made')\nprint(next(m))\nprint(list(m))", "f = filter(lambda v: v % 2, P(4))\nprint('made')\nprint(next(f))",
+      "e = enumerate(P(3), 10)\nprint('made')\nprint(next(e))\nprint(list(e))", "g = (v * v for v in P(3))\nprint('made')\nprint(next(g))\nprint(next(g))",
+      "z = zip(P(3, 'a'), P(3, 'b'))\nprint('made')\nprint(next(z))", "print(min(P(3)), max(P(3)), sum(P(3)))", "print(sorted(P(3), reverse=True))",
+      "print(list(P(3))[1:], tuple(P(2)), sorted(set(P(2))))", "print(dict(zip(['a', 'b'], P(5))))" if False else "print(list(zip(['a', 'b'], P(5))))",
+      "def take(it, n):\n    r = []\n    for v in it:\n        if len(r) == n:\n            break\n        r.append(v)\n    return r\nprint(take(P(5), 2))",
+      "it = iter(P(4))\nfor v in it:\n    if v == 1:\n        break\nprint(list(it))", "it = iter(P(3))\nprint(list(it), list(it))",
+      "def f(*a):\n    return a\nprint(f(*P(3)))", "print(','.join(str(v) for v in P(3)))", "print([v for v in P(4) if v % 2 for w in P(1, 'q')])",
+      "x = iter(P(3))\nprint(1 in x)\nprint(list(x))",
+      "i = iter([1, 2, 3])\nprint(next(i))\nprint(list(i), list(i))", "i = iter(range(3))\nprint(next(i), next(i), next(i), next(i, 'end'))", "i = iter('ab')\nprint(next(i), next(i), next(i, None))",
+      "l = [1, 2, 3]\ni = iter(l)\nprint(next(i))\nl.append(4)\nprint(list(i))", "l = [1, 2, 3, 4]\nr = []\nfor v in l:\n    r.append(v)\n    if v == 2:\n        del l[0]\nprint(r)",
+      "e = enumerate(P(4))\nfor i, v in e:\n    if i == 1:\n        break\nprint(list(e))", "e = enumerate('abc', 5)\nprint(next(e), next(e))\nprint(iter(e) is e, list(e))",
+      "s = P(2)\ni = iter(s)\nprint(list(i))\nprint(next(i, 'still exhausted'))\nprint(list(i))",
+      "l = [1, 2]\ni = iter(l)\nprint(list(i))\nl.append(3)\nprint(list(i), next(i, 'still exhausted'))", "t = (1, 2)\nj = iter(t)\nprint(list(j), list(j))",
+      "class S:\n    def __init__(self): self.n = 2\n    def __getitem__(self, k):\n        if k >= self.n: raise IndexError\n        return k\ns = S()\nit = iter(s)\nprint(list(it))\ns.n = 5\nprint(list(it))",
+      "r = iter(range(2))\nprint(list(r), list(r))", "st = iter('ab')\nprint(list(st), list(st))", "z = zip([1, 2], [3, 4])\nprint(list(z), list(z))", "m = map(str, [1, 2])\nprint(list(m), list(m))",
+      "g = P(2)\nprint(list(g), list(g), next(g, 'exhausted'))",
+      "n = [0]\ndef f():\n    n[0] += 1\n    return n[0]\nit = iter(f, 3)\nprint(list(it), n[0])\nprint(next(it, 'done'), n[0], list(it), n[0])",
+      "n = [0]\ndef f():\n    n[0] += 1\n    return float(n[0])\nprint(list(iter(f, 2)), n[0], list(zip(iter(f, 99), 'ab')), n[0])",
+      "i = iter((1, 2))\nprint(list(zip(i, i)))", "i = iter(P(5))\nprint(list(zip(i, i)))",
+    ]
+    out = []
+    for pn, ps in prods.items():
+        for c in cons:
+            out.append((ps + c + "\n", dict(producer=pn, consumer=c.split("\n")[0][:50])))
     return out
